@@ -226,7 +226,14 @@ def explore(cfg, H, check_continuations=True):
     findings = []
     ks = k_alphabet(cfg)
     events = [("next",), ("iter",)] + [("fin", k) for k in ks]
-    R0 = Replayed(cfg, [])
+    try:
+        R0 = Replayed(cfg, [])
+    except Exception as e:  # noqa: BLE001
+        return {"states": 1, "transitions": 1, "continuations": 0,
+                "findings": [(("C17",), "construction_raises",
+                              f"constructing the object raised "
+                              f"{type(e).__name__}: {e}", [])],
+                "outcomes": {}, "sample": []}
     seen = {canon(R0.sched): []}
     frontier = collections.deque([[]])
     n_states = 1
